@@ -111,7 +111,81 @@ fn jitter(state: &mut u64) {
 struct SendFm(FrozenModule, usize);
 unsafe impl Send for SendFm {}
 
+/// Many tiny frozen heaps built back to back on producer threads (so that consecutive heaps share allocator
+/// chunks) and dropped on consumer threads while the producer keeps building; a sample is kept alive and
+/// re-read at the end. Observes: panics, content of the kept values.
+fn storm(case: &J) -> Vec<J> {
+    use starlark::values::FrozenHeap;
+    use starlark::values::OwnedFrozen;
+    use starlark::values::Value;
+    let pairs = case.get("pairs").and_then(|x| x.as_u64()).unwrap_or(3) as usize;
+    let n = case.get("n").and_then(|x| x.as_u64()).unwrap_or(20000) as usize;
+    struct SendOf(OwnedFrozen<Value<'static>>);
+    unsafe impl Send for SendOf {}
+    let mut handles = Vec::new();
+    for p in 0..pairs {
+        let (tx, rx) = mpsc::sync_channel::<SendOf>(64);
+        let consumer = std::thread::spawn(move || {
+            std::panic::catch_unwind(std::panic::AssertUnwindSafe(move || {
+                let mut dropped = 0u64;
+                for x in rx {
+                    drop(x);
+                    dropped += 1;
+                }
+                dropped
+            }))
+            .map_err(|_| crate::take_panic_msg())
+        });
+        let producer = std::thread::spawn(move || {
+            std::panic::catch_unwind(std::panic::AssertUnwindSafe(move || {
+            let mut kept: Vec<(String, OwnedFrozen<Value<'static>>)> = Vec::new();
+            for i in 0..n {
+                let text = format!("p{p}-item-{i}-{}", "x".repeat(i % 23));
+                let t2 = text.clone();
+                let of = OwnedFrozen::<Value<'static>>::build(FrozenHeapName::user("storm"), move |h: &FrozenHeap| {
+                    let s = h.alloc_str(&t2);
+                    h.alloc((s, i as i32)).to_value()
+                });
+                if i % 97 == 0 {
+                    kept.push((text, of));
+                } else if tx.send(SendOf(of)).is_err() {
+                    break;
+                }
+            }
+            drop(tx);
+            let mut bad = Vec::new();
+            for (text, of) in &kept {
+                let got = canon::encode(of.as_ref().value(), false);
+                if got[1] != json!(format!("s{text}")) {
+                    bad.push(json!([text, got]));
+                }
+            }
+            (kept.len(), bad)
+            }))
+            .map_err(|_| crate::take_panic_msg())
+        });
+        handles.push((producer, consumer));
+    }
+    let mut out = Vec::new();
+    for (p, c) in handles {
+        match p.join() {
+            Ok(Ok((kept, bad))) => out.push(json!(["storm_producer", kept, bad])),
+            Ok(Err(m)) => out.push(json!(["panic", format!("storm producer: {m}")])),
+            Err(_) => out.push(json!(["panic", "storm producer thread died"])),
+        }
+        match c.join() {
+            Ok(Ok(d)) => out.push(json!(["storm_consumer", d])),
+            Ok(Err(m)) => out.push(json!(["panic", format!("storm consumer: {m}")])),
+            Err(_) => out.push(json!(["panic", "storm consumer thread died"])),
+        }
+    }
+    out
+}
+
 pub fn run_case(case: &J) -> Vec<J> {
+    if case.get("storm").and_then(|x| x.as_bool()).unwrap_or(false) {
+        return storm(case);
+    }
     let shared_src = srcs(case.get("shared"));
     let workers = Arc::new(srcs(case.get("workers")));
     let nthreads = case.get("threads").and_then(|x| x.as_u64()).unwrap_or(4) as usize;
